@@ -118,3 +118,7 @@ Fixpoint pair_spec (fuel : nat) (l : list out) : list out :=
            | e :: r => e :: pair_spec f r
            end
   end.
+
+(* everything the selected iterator will deliver: per input, in argument order *)
+Definition all_outs (m : mode) (stdin : fdata) (args : list (fsrc fdata)) : list out :=
+  match args with [] => data_outs (fmt_of m) stdin | _ => flat_map (src_outs (fmt_of m)) args end.
